@@ -410,7 +410,6 @@ func teardownOnly(w *World, fn *ssa.Function) (bool, string) {
 	return true, "runs only from a defer of the constructor that was registered before the deferred server stop: the server no longer serves when it runs"
 }
 
-
 type tableInfo struct {
 	sp     tableSpec
 	tf     *tableFollower
